@@ -6,6 +6,7 @@ import (
 	"fmt"
 	"os"
 	"sort"
+	"time"
 
 	"github.com/couchbase/moss"
 )
@@ -224,11 +225,18 @@ func famIndexAPI(w *bufio.Writer, seed uint64, n int) error {
 	return nil
 }
 
+// waitPersisted waits until nothing is dirty any more.  Rounds are counted as completed by the
+// callers, so giving up early would make them claim more than happened: the wait is long (fsync
+// stalls for many seconds on a loaded machine) and a time-out is fatal for the run.
 func waitPersisted(c moss.Collection) {
-	for i := 0; i < 20000; i++ {
-		st, _ := c.Stats()
-		if st.CurDirtyOps == 0 && st.CurDirtySegments == 0 {
+	deadline := time.Now().Add(180 * time.Second)
+	for {
+		st, err := c.Stats()
+		if err != nil || (st.CurDirtyOps == 0 && st.CurDirtySegments == 0) {
 			return
+		}
+		if time.Now().After(deadline) {
+			panic("director: persistence did not finish within 180 s")
 		}
 		sleepMicros(200)
 	}
